@@ -192,33 +192,36 @@ def check_signature(ctx, params, ret, rnd):
     if len(valid) + len(invalid) != len(callsigs):
         V(ctx, 'sort-callsigs-not-a-partition', 'sort_callsigs lost or duplicated calls', w, rp)
     # make_up_callsigs
-    extra = rnd.choice((0, 1, 2))
-    if len(params) + extra <= 6:
-        ctx.count('C20.make_up_callsigs')
-        try:
-            made = support.make_up_callsigs(want_sig, extra=extra)
-        except Exception as e:
-            V(ctx, 'make-up-callsigs-raises', 'make_up_callsigs raised %s' % type(e).__name__, w, rp)
-            return
-        named = [p[0] for p in params if p[1] in (PO, PK)] + [p[0] for p in params if p[1] == KO]
-        extras = ['__make_up_callsigs__extra_%d' % i for i in range(extra)]
-        pos_names = named + extras
-        kw_names = pos_names + [p[0] for p in params if p[1] in (VA, VK)]
-        have = set((a, frozenset(k)) for a, k in made)
-        missing = None
-        for i in range(len(pos_names) + 1):
-            for r in range(len(kw_names) + 1):
-                for c in itertools.combinations(kw_names, r):
-                    if (tuple(pos_names[:i]), frozenset(c)) not in have:
-                        missing = (pos_names[:i], sorted(c))
-                        break
-                if missing:
-                    break
-            if missing:
-                break
-        if missing:
-            V(ctx, 'make-up-callsigs-incomplete', 'make_up_callsigs misses a positional prefix x keyword subset within its bounds',
-              dict(w, extra=extra, missing=repr(missing)), rp)
+    # asked twice for the same signature, with another bound each time (smaller first or larger first):
+    # each answer has to be complete for ITS bound
+    first_extra = rnd.choice((0, 1, 2))
+    for extra in (first_extra, rnd.choice([e for e in (0, 1, 2) if e != first_extra])):
+      if len(params) + extra <= 6:
+          ctx.count('C20.make_up_callsigs')
+          try:
+              made = support.make_up_callsigs(want_sig, extra=extra)
+          except Exception as e:
+              V(ctx, 'make-up-callsigs-raises', 'make_up_callsigs raised %s' % type(e).__name__, w, rp)
+              return
+          named = [p[0] for p in params if p[1] in (PO, PK)] + [p[0] for p in params if p[1] == KO]
+          extras = ['__make_up_callsigs__extra_%d' % i for i in range(extra)]
+          pos_names = named + extras
+          kw_names = pos_names + [p[0] for p in params if p[1] in (VA, VK)]
+          have = set((a, frozenset(k)) for a, k in made)
+          missing = None
+          for i in range(len(pos_names) + 1):
+              for r in range(len(kw_names) + 1):
+                  for c in itertools.combinations(kw_names, r):
+                      if (tuple(pos_names[:i]), frozenset(c)) not in have:
+                          missing = (pos_names[:i], sorted(c))
+                          break
+                  if missing:
+                      break
+              if missing:
+                  break
+          if missing:
+              V(ctx, 'make-up-callsigs-incomplete', 'make_up_callsigs misses a positional prefix x keyword subset within its bounds',
+                dict(w, extra=extra, missing=repr(missing)), rp)
 
 
 def decorate(rnd, params):
@@ -262,7 +265,73 @@ def run(ctx):
             check_signature(ctx, params, ret, rnd)
     if ctx.tier == 'thorough':
         ctx.exhaustive['support: every parameter list of U({a,b,c},3) (metadata seeded)'] = done
+    if ctx.shard == 0:
+        stress_threads(ctx, rnd, U)
+
+
+def stress_threads(ctx, rnd, U):
+    """'For every valid signature' holds for every schedule too: several threads build functions
+    from different signature texts at once (s, f, func_from_sig keep nothing per call that another
+    call may see); each result must be what the same call gives alone."""
+    import sys
+    import threading
+    import inspect as _inspect
+    from sigtools import support
+    texts = []
+    for p in rnd.sample(U, 24):
+        t = sigs.render(tuple((n, k, d, None) for n, k, d, a in p))
+        try:
+            texts.append((t, str(support.s(t))))
+        except Exception:
+            continue
+    if len(texts) < 4:
+        return
+    n_threads, per_thread = 6, {'quick': 250, 'thorough': 3000}[ctx.tier]
+    wrong = []
+    lock = threading.Lock()
+    start = threading.Event()
+
+    def worker(k):
+        r = __import__('random').Random(ctx.seed * 1000 + k)
+        start.wait()
+        for _ in range(per_thread):
+            t, want = r.choice(texts)
+            try:
+                how = r.randrange(3)
+                if how == 0:
+                    got = str(support.s(t))
+                elif how == 1:
+                    got = str(_inspect.signature(support.f(t)))
+                else:
+                    got = str(_inspect.signature(support.func_from_sig(support.s(t))))
+            except Exception as e:
+                got = 'raised %s' % type(e).__name__
+            if got != want:
+                with lock:
+                    wrong.append((t, want, got))
+    old = sys.getswitchinterval()
+    sys.setswitchinterval(1e-6)
+    try:
+        threads = [threading.Thread(target=worker, args=(k,)) for k in range(n_threads)]
+        for th in threads:
+            th.start()
+        start.set()
+        for th in threads:
+            th.join(120)
+    finally:
+        sys.setswitchinterval(old)
+    ctx.evaluated(n_threads * per_thread)
+    ctx.count('C20.concurrent_builds', n_threads * per_thread)
+    ctx.nontrivial(('stress', len(texts)))
+    if wrong:
+        t, want, got = wrong[0]
+        ctx.violation('C20', 'SupportBoundary', 'concurrent-build-gives-another-signature',
+                      'a function built from a signature text while other threads build other ones has another signature than when built alone (%d of %d calls)' % (len(wrong), n_threads * per_thread),
+                      {'text': t, 'alone': want, 'concurrently': got}, dict(workload='supp-stress'))
 
 
 def replay(ctx, rec):
+    if rec.get('workload') == 'supp-stress':
+        rnd = ctx.rng('supp')
+        return stress_threads(ctx, rnd, sigs.U(('a', 'b', 'c'), 3, stars=sigs.STARS2[:1]))
     check_signature(ctx, sigs.from_json(rec['params']), rec['ret'], ctx.rng('replay'))
